@@ -74,6 +74,13 @@ def run_verus(rs, seed=None, rlimit=None, timeout=900):
             'stderr_tail': err[-4000:]}
 
 
+# methods of std traits that vstd specifies through `obeys_*_spec()` / external trait specifications (an impl without a spec is
+# admitted with an unknown result instead of being rejected)
+TRAIT_SPEC_METHODS = {'from', 'into', 'try_from', 'try_into', 'clone', 'cloned', 'default', 'eq', 'ne', 'partial_cmp', 'cmp', 'lt', 'le', 'gt', 'ge',
+                      'add', 'sub', 'mul', 'div', 'rem', 'neg', 'not', 'bitand', 'bitor', 'bitxor', 'shl', 'shr', 'next', 'to_owned', 'to_string',
+                      'borrow', 'as_ref', 'deref', 'from_iter', 'collect', 'extend', 'from_str', 'parse', 'hash', 'index', 'into_iter'}
+
+
 def classify(meta, run, unit_file):
     """Returns dict with:
          failed: list of {fn, clause, tags, message, line, kind}    (obligation failures)
@@ -107,8 +114,30 @@ def classify(meta, run, unit_file):
     # a closure without a ghost annotation is opaque to Verus (nothing is known about its result): same rule
     opaque = {f['key']: (f.get('closures', 0), f.get('closures_annotated', 0)) for f in meta.get('functions', [])
               if f.get('closures', 0) > f.get('closures_annotated', 0)}
+    # a function that NEWLY (relative to baseline/calls.json) calls a std trait method that vstd specifies only through `obeys_*_spec()`:
+    # for an impl without a specification the call is admitted with an unknown result, so a failed obligation there is undecided
+    new_trait_calls = {}
+    try:
+        with open(os.path.join(VERIF, 'baseline', 'calls.json')) as f:
+            base_calls = json.load(f).get(meta.get('unit', ''), {})
+    except Exception:
+        base_calls = {}
+    unit_vocab = set(x for v in base_calls.values() for x in v)
+    for f in meta.get('functions', []):
+        if f['key'] in base_calls and 'calls' in f:
+            nw = []
+            for x in sorted(set(f['calls']) - set(base_calls[f['key']])):
+                nm = x.split('::')[-1].lstrip('.')
+                if nm not in TRAIT_SPEC_METHODS:
+                    continue
+                if '::' in x and not x.startswith('?::') and x in unit_vocab:
+                    continue   # `Type::method` already used (and verified) elsewhere in this unit on the unchanged tree
+                nw.append(x)
+            if nw:
+                new_trait_calls[f['key']] = nw
     canary_lines = set(meta.get('canary_lines', []))
     canary_failed = False
+    canaries_failed = set()
     if run['timed_out']:
         tool.append('verus timed out after %.0fs' % run['wall_s'])
     for d in run['diags']:
@@ -121,6 +150,7 @@ def classify(meta, run, unit_file):
         spans = [s for s in d.get('spans', []) if s.get('file_name', '').endswith(base)]
         if OBLIGATION_RE.search(msg) and any(s['line_start'] in canary_lines for s in spans):
             canary_failed = True   # expected: `ensures false` must not be provable
+            canaries_failed.update(s['line_start'] for s in spans if s['line_start'] in canary_lines)
             continue
         if OBLIGATION_RE.search(msg):
             # which clause?  prefer a span that lies on a clause line; else the enclosing function body
@@ -146,6 +176,11 @@ def classify(meta, run, unit_file):
                 tool_scoped.append({'tags': info.get('tags', []), 'clause': info['clause'],
                                     'msg': 'fn %s has %d loop(s) but the contract supplies invariants for %d: obligation %s is undecided (not a violation)' %
                                            (info['fn'], unannotated[info['fn']][0], unannotated[info['fn']][1], info['clause'])})
+                continue
+            if info['fn'] in new_trait_calls:
+                tool_scoped.append({'tags': info.get('tags', []), 'clause': info['clause'],
+                                    'msg': 'fn %s newly calls the std trait method(s) %s; where the impl behind such a call has no specification Verus admits the call with an unknown result: obligation %s is undecided (not a violation)' %
+                                           (info['fn'], ', '.join(new_trait_calls[info['fn']]), info['clause'])})
                 continue
             if info['fn'] in opaque:
                 tool_scoped.append({'tags': info.get('tags', []), 'clause': info['clause'],
@@ -185,7 +220,7 @@ def classify(meta, run, unit_file):
             pass
         if not vr.get('success') and not failed and not tool and not tool_scoped and not canary_failed:
             tool.append('verus reported failure without a classifiable diagnostic: %s' % run['stderr_tail'][-800:])
-    if canary_lines and not canary_failed and js is not None and not tool:
+    if canary_lines and (not canary_failed or canaries_failed != canary_lines) and js is not None and not tool:
         tool.append('CANARY VERIFIED: `ensures false` was proved with the unit\'s axioms in scope -- trusted base inconsistent')
     return {'failed': failed, 'tool': tool, 'tool_scoped': tool_scoped, 'demote_candidates': demote_candidates, 'fn_status': fn_status, 'canary_failed': canary_failed}
 
